@@ -146,6 +146,31 @@ static void hs_job(int k)
 		if (!strcmp(cip, HSCFG[k].ip)) viol("address-is-servers", "%s/%d: session %d is told the server's own address", HSCFG[k].ip, HSCFG[k].bits, slot);
 		if (s_find_user_by_ip(inet_addr(cip)) != slot) viol("lookup-misses-owner", "%s/%d: looking up the announced address %s does not find session %d", HSCFG[k].ip, HSCFG[k].bits, cip, slot);
 	}
+	/* second life of every slot: all sessions fall silent for 61 s (looking their addresses up finds nobody), then other parties
+	 * send a version request only and are handed the slots again: an address is not found before its new holder has logged in */
+	adv_advance(61 * 1000000LL);
+	for (int i = 0; i < nu && i < 16; i++) {
+		xp_count(K_LOOKUPS, 1);
+		int r = s_find_user_by_ip(us[i].tun_ip);
+		if (r >= 0) viol("lookup-finds-wrong-session", "%s/%d: session %d has been silent for 61 s but looking up its address still finds session %d", HSCFG[k].ip, HSCFG[k].bits, i, r);
+	}
+	for (int i = 0; i < nu && i < 16; i++) {
+		struct sockaddr_storage me; socklen_t ml; char a[32];
+		snprintf(a, sizeof a, "198.51.101.%d", 10 + i); vw_mkaddr(&me, &ml, a, 5000 + i);
+		uint8_t pkt[700]; const uint8_t *pl; static rd_msg m; int n;
+		adv_clear(); n = tm_version(pkt, 300 + i, 10, 0x00000502, 0x500 + i, c.topdomain); adv_send(&me, ml, pkt, n);
+		if (adv_nout != 1 || (n = tm_null_payload(adv_outs[0].data, adv_outs[0].len, &pl, &m)) < 9 || memcmp(pl, "VACK", 4)) { viol("session-not-creatable", "%s/%d: after 61 s of silence version request %d of %d is not acknowledged", HSCFG[k].ip, HSCFG[k].bits, i + 1, nu); return; }
+		int slot = pl[8];
+		if (slot < 0 || slot >= nu) { viol("slot-id", "%s/%d: VACK names slot %d of %d", HSCFG[k].ip, HSCFG[k].bits, slot, nu); return; }
+		xp_count(K_LOOKUPS, 1);
+		int r = s_find_user_by_ip(us[slot].tun_ip);
+		if (r >= 0) viol("lookup-finds-wrong-session", "%s/%d: slot %d was handed to a party that only sent a version request, yet looking up its address finds session %d", HSCFG[k].ip, HSCFG[k].bits, slot, r);
+		uint32_t seed = (pl[4] << 24) | (pl[5] << 16) | (pl[6] << 8) | pl[7];
+		uint8_t h[16]; s_login_calculate((char *)h, 16, (const char *)pw32, (int)seed);
+		adv_clear(); n = tm_login(pkt, 400 + i, 10, slot, h, 16, 0x600 + i, c.topdomain); adv_send(&me, ml, pkt, n);
+		xp_count(K_LOGINS, 1);
+		if (s_find_user_by_ip(us[slot].tun_ip) != slot) viol("lookup-misses-owner", "%s/%d: second holder of slot %d logged in, looking up its address does not find it", HSCFG[k].ip, HSCFG[k].bits, slot);
+	}
 	xp_outcome(0x18000 + k);
 	if (k == 2) xp_sample("handshake through the real server loop for every slot of %d configurations (e.g. %s/%d): announced server/client address, mtu and netmask compared with the server's table", NHS, HSCFG[k].ip, HSCFG[k].bits);
 }
